@@ -324,6 +324,26 @@ theorem inv_step (s : St) (p : Pid) (h : Inv s) : Inv (step s p) := by
                    rw [this]; exact h
   | failedRel e => have : step s p = s := by simp [step, hpc]
                    rw [this]; exact h
+  | killed => have : step s p = s := by simp [step, hpc]
+              rw [this]; exact h
+
+theorem inv_interrupt (s : St) (p : Pid) (h : Inv s) : Inv (interrupt s p) := by
+  unfold interrupt
+  split
+  · rename_i hpc
+    have hf : (s.kind p, p) ∈ s.files := h.own p (by simp [hpc, hasFile])
+    exact h.move p _ (fun _ => hf) (fun _ => rfl) (fun _ => Or.inl rfl) (fun e => by cases e)
+  · exact h
+
+theorem inv_stepE (s : St) (e : Ev) (h : Inv s) : Inv (stepE s e) := by
+  cases e with
+  | call i => exact inv_step s i h
+  | intr i => exact inv_interrupt s i h
+
+theorem inv_runE (s : St) (evs : List Ev) (h : Inv s) : Inv (runE s evs) := by
+  induction evs generalizing s with
+  | nil => exact h
+  | cons e r ih => exact ih (stepE s e) (inv_stepE s e h)
 
 theorem inv_run (s : St) (sched : List Pid) (h : Inv s) : Inv (run s sched) := by
   induction sched generalizing s with
@@ -371,6 +391,25 @@ theorem noRelFail_step (s : St) (p : Pid) (h : Inv s) (hn : ∀ i e, s.pc i ≠ 
       repeat' split
       all_goals simp [setPC]
   · rw [step_pc_other s p i hip]; exact hn i e
+
+theorem noRelFail_stepE (s : St) (ev : Ev) (h : Inv s) (hn : ∀ i e, s.pc i ≠ .failedRel e) :
+    ∀ i e, (stepE s ev).pc i ≠ .failedRel e := by
+  cases ev with
+  | call p => exact noRelFail_step s p h hn
+  | intr p =>
+    intro i e
+    simp only [stepE, interrupt]
+    split
+    · by_cases hip : i = p
+      · subst hip; simp [setPC]
+      · simp [setPC, upd, hip]; exact hn i e
+    · exact hn i e
+
+theorem noRelFail_runE (s : St) (evs : List Ev) (h : Inv s) (hn : ∀ i e, s.pc i ≠ .failedRel e) :
+    ∀ i e, (runE s evs).pc i ≠ .failedRel e := by
+  induction evs generalizing s with
+  | nil => exact hn
+  | cons ev r ih => exact ih (stepE s ev) (inv_stepE s ev h) (noRelFail_stepE s ev h hn)
 
 theorem noRelFail_run (s : St) (sched : List Pid) (h : Inv s) (hn : ∀ i e, s.pc i ≠ .failedRel e) :
     ∀ i e, (run s sched).pc i ≠ .failedRel e := by
